@@ -14,7 +14,7 @@ package rest
 //@   requires d.client.CheckRedirect != nil
 //@   requires counterDistRestAttempt != nil && counterDistRestSuccess != nil && counterDistRestAttempt != counterDistRestSuccess
 //@   modifies n_ro, ro_err, n_gl, gl_err, gl_val, gl_h, n_glc, glc_id, glc_out, glc_err, cnt
-//@   modifies req_method, req_url, req_body, rdr_bytes, n_do, do_method, do_url, do_body, do_err, do_status, do_final_method, do_resp_body, rd_buf, req_ctx, do_ctx, n_noctx, n_bodies_open
+//@   modifies req_method, req_url, req_body, rdr_bytes, n_do, do_method, do_url, do_body, do_err, do_status, do_final_method, do_resp_body, rd_buf, req_ctx, do_ctx, n_noctx, n_bodies_open, body_open
 //@   ghostmodifies n_dfl, n_dfl_fail
 //@   ensures[ghost] n_dfl == old(n_dfl) + 1 && n_dfl_fail == old(n_dfl_fail) + (err != nil ? 1 : 0)
 //@   // the witness is asked once, for this log's ID; at most one request goes out
@@ -25,7 +25,7 @@ package rest
 //@   // ... and only after it verified under the log's key and origin with exactly two verified signatures: the log's and the witness's
 //@   ensures[C15.3] sent ==> parsesAs2(glc_out, l.Origin, l.Verifier, d.witSigV) && nVerified2(glc_out, l.Verifier, d.witSigV) == 2
 //@   // the PUT carries the caller's context
-//@   ensures[C19.ctx,C15.ctx] ctx != noCtx() ==> n_noctx == old(n_noctx)
+//@   ensures[C19.ctx,C15.ctx] ctx != noCtx() && ctx != todoCtx() ==> n_noctx == old(n_noctx)
 //@   ensures[C19.ctx,C15.ctx] sent ==> do_ctx == ctx
 //@   // the response body is closed on every path (an open body keeps its connection checked out: with a capped transport the
 //@   // next log's request would wait for it)
@@ -45,7 +45,7 @@ package rest
 //@   requires counterDistRestAttempt != nil && counterDistRestSuccess != nil && counterDistRestAttempt != counterDistRestSuccess
 //@   requires forall j int :: 0 <= j && j < len(d.logs) ==> d.logs[j].Verifier != nil
 //@   modifies n_ro, ro_err, n_gl, gl_err, gl_val, gl_h, n_glc, glc_id, glc_out, glc_err, cnt
-//@   modifies req_method, req_url, req_body, rdr_bytes, n_do, do_method, do_url, do_body, do_err, do_status, do_final_method, do_resp_body, rd_buf, req_ctx, do_ctx, n_noctx, n_bodies_open, n_dfl, n_dfl_fail
+//@   modifies req_method, req_url, req_body, rdr_bytes, n_do, do_method, do_url, do_body, do_err, do_status, do_final_method, do_resp_body, rd_buf, req_ctx, do_ctx, n_noctx, n_bodies_open, body_open, n_dfl, n_dfl_fail
 //@   // every configured log is attempted (a failure does not stop the others), and the result reports whether any failed
 //@   ensures[C15.6] n_dfl == old(n_dfl) + len(d.logs)
 //@   ensures[C15.6] (err != nil) == (n_dfl_fail != old(n_dfl_fail))
